@@ -1,9 +1,9 @@
 (* C08 - ISO requests are always answered: data for the mandatory PGNs, a negative acknowledgement otherwise.
-   Statements: Spec/IsoSpec.v ; proofs: Proofs/IsoProofsA-D.v.  Every statement quantifies over every requested PGN 0 <= p < 2^24, every
+   Statements: Spec/IsoSpec.v ; proofs: Proofs/IsoProofsA-E.v.  Every statement quantifies over every requested PGN 0 <= p < 2^24, every
    requester address, every node (any number of devices), and - where the function takes one - every group function reaction gf. *)
 From Coq Require Import ZArith List Bool.
 From N2kV Require Import Base.ListAux Model.CanId Model.Sched Model.PgnClass Model.NodeDefs Model.NodeRxDefs Gen.GenTables Gen.GenConsts
-  Spec.SendSpec Spec.IsoSpec Proofs.IsoProofsA Proofs.IsoProofsB Proofs.IsoProofsC Proofs.IsoProofsD.
+  Spec.SendSpec Spec.IsoSpec Proofs.IsoProofsA Proofs.IsoProofsB Proofs.IsoProofsC Proofs.IsoProofsD Proofs.IsoProofsE.
 Import ListNotations.
 Local Open Scope Z_scope.
 
@@ -13,6 +13,10 @@ Theorem C08_addressed_empty_queue : iso_addressed_empty_queue_stmt.  Proof. exac
 Print Assumptions C08_addressed_empty_queue.
 Theorem C08_broadcast_never_nak : iso_broadcast_never_nak_stmt.  Proof. exact iso_broadcast_never_nak. Qed.
 Print Assumptions C08_broadcast_never_nak.
+Theorem C08_broadcast_all_devices : iso_broadcast_all_devices_stmt.  Proof. exact iso_broadcast_all_devices. Qed.
+Print Assumptions C08_broadcast_all_devices.
+Theorem C08_no_config_info : iso_no_config_info_stmt.  Proof. exact iso_no_config_info. Qed.
+Print Assumptions C08_no_config_info.
 Theorem C08_claim_pending_silent : iso_claim_pending_silent_stmt.  Proof. exact iso_claim_pending_silent. Qed.
 Print Assumptions C08_claim_pending_silent.
 Theorem C08_dispatch : iso_dispatch_stmt.  Proof. exact iso_dispatch. Qed.
@@ -66,6 +70,16 @@ Example C08_nonvacuous_unknown_pgn :
   can_id_to_n2k (to_can_id 6 59392 22 50) = (6, 59392, 22, 50).
 Proof. vm_compute. repeat split. Qed.
 Print Assumptions C08_nonvacuous_unknown_pgn.
+
+(* no configuration information at all: the addressed request is refused to the requester, the broadcast request draws nothing *)
+Definition ex2_noconf : rnode :=
+  ex_rnode 2 (sring_new 80) [] [mk_dev true 22 13835058055282163713 []; mk_dev true 23 13835058055282163714 []] [[]; []] (ex_cfg None ex_prod []).
+Example C08_nonvacuous_no_config_info :
+  snd (handle_system gf_none ex2_noconf (ex_request 50 23 126998 3)) = [EvTx (to_can_id 6 59392 23 50) 8 [1; 255; 255; 255; 255; 22; 240; 1] true] /\
+  snd (handle_system gf_none ex2_noconf (ex_request 50 255 126998 3)) = [] /\
+  can_id_to_n2k (to_can_id 6 59392 23 50) = (6, 59392, 23, 50).
+Proof. vm_compute. repeat split. Qed.
+Print Assumptions C08_nonvacuous_no_config_info.
 
 (* a broadcast request for the address claim / the PGN lists is answered by both devices in device order *)
 Example C08_nonvacuous_broadcast_mandatory :
